@@ -6,12 +6,12 @@ Require Import Zrs.lib.RsPrelude Zrs.gen.Generated Zrs.model.IoNoStd Zrs.model.F
 Require Import Zrs.proofs.C18_Io Zrs.proofs.C15_Frame.
 Open Scope nat_scope.
 
-(** read_exact: on success exactly the next [need] bytes were delivered and consumed; UnexpectedEof exactly when the
+(** io_read_exact: on success exactly the next [need] bytes were delivered and consumed; UnexpectedEof exactly when the
     source ends early (all of it was consumed); other errors only if the inner reader failed; Interrupted is never
     reported; what is in the buffer is always a prefix of the source *)
 Theorem C18_read_exact_contract : forall fuel r need got got' err r',
   need + length (sr_script r) < fuel ->
-  read_exact fuel r need got = ((got', err), r') ->
+  io_read_exact fuel r need got = ((got', err), r') ->
   exists k, got' = got ++ firstn k (sr_data r) /\ sr_data r' = skipn k (sr_data r) /\ k <= need /\
     match err with
     | None => k = need /\ need <= length (sr_data r)
@@ -23,13 +23,13 @@ Proof. exact read_exact_spec. Qed.
 
 Theorem C18_read_exact_succeeds : forall fuel r need got, need + length (sr_script r) < fuel -> ~ In RFail (sr_script r) ->
   need <= length (sr_data r) ->
-  exists r', read_exact fuel r need got = ((got ++ firstn need (sr_data r), None), r') /\ sr_data r' = skipn need (sr_data r).
+  exists r', io_read_exact fuel r need got = ((got ++ firstn need (sr_data r), None), r') /\ sr_data r' = skipn need (sr_data r).
 Proof. exact read_exact_succeeds. Qed.
 
 (** Take: a call never delivers more than the remaining limit or the buffer, the limit decreases by exactly what was
     delivered and never goes below zero, errors change nothing *)
 Theorem C18_take_contract : forall t space, (0 <= tk_limit t)%Z ->
-  match take_read t space with
+  match io_take_read t space with
   | (inl bytes, t') => exists k, k <= space /\ (Z.of_nat k <= tk_limit t)%Z /\ bytes = firstn k (sr_data (tk_inner t)) /\
                                  sr_data (tk_inner t') = skipn k (sr_data (tk_inner t)) /\
                                  (tk_limit t' = tk_limit t - Z.of_nat (length bytes))%Z /\ (0 <= tk_limit t')%Z /\
@@ -39,16 +39,16 @@ Theorem C18_take_contract : forall t space, (0 <= tk_limit t)%Z ->
 Proof. exact take_read_spec. Qed.
 
 Theorem C18_take_read_to_end : forall fuel t out out' err t', (0 <= tk_limit t)%Z ->
-  take_read_to_end fuel t out = ((out', err), t') ->
+  io_take_read_to_end fuel t out = ((out', err), t') ->
   exists k, out' = out ++ firstn k (sr_data (tk_inner t)) /\ (Z.of_nat k <= tk_limit t)%Z /\
             sr_data (tk_inner t') = skipn k (sr_data (tk_inner t)) /\
             (err = None -> Z.of_nat k = Z.min (tk_limit t) (Z.of_nat (length (sr_data (tk_inner t)))))%Z.
 Proof. exact take_read_to_end_spec. Qed.
 
-(** write_all: on success the whole buffer was written, in order; WriteZero only if the writer accepted nothing;
+(** io_write_all: on success the whole buffer was written, in order; WriteZero only if the writer accepted nothing;
     Interrupted is never reported; what was written is always a prefix of the buffer *)
 Theorem C18_write_all_contract : forall fuel w buf err w', length buf + length (sw_script w) < fuel ->
-  write_all fuel w buf = (err, w') ->
+  io_write_all fuel w buf = (err, w') ->
   exists k, sw_out w' = sw_out w ++ firstn k buf /\
     match err with
     | None => k = length buf
